@@ -47,6 +47,7 @@ type CheckCtx struct {
 	Instances int
 	Exhaustive bool
 	TracesValidated int
+	fpGoals map[string]bool // case-split goals: covered by at least one stage?
 }
 
 type PropDef struct {
@@ -287,6 +288,11 @@ func runCheck(id, tier string, seed int64) int {
 	}
 	if pd.Custom != nil {
 		pd.Custom(cc)
+	}
+	for g, covered := range cc.fpGoals {
+		if !covered && !(tier == "quick" && len(cc.Notes) > 0) {
+			cc.ToolErr = append(cc.ToolErr, "case-split goal not closed by any stage: "+g)
+		}
 	}
 	return cc.finish(pd, time.Since(t0).Seconds())
 }
